@@ -16,7 +16,7 @@
 From Coq Require Import NArith List String Bool.
 From Coq Require Import Strings.Byte.
 From PDL Require Import Base.Bits Base.Outcome Lang.Ast Lang.Sexp Analyzer.Schema
-     Rust.Decode Rust.Runtime Proofs.DecodeSuffix Proofs.DecodeSafe Proofs.RuntimeLaws.
+     Rust.Decode Rust.Runtime Proofs.DecodeSuffix Proofs.DecodeSafe Proofs.DecodeSafeArrays Proofs.RuntimeLaws.
 Import ListNotations.
 
 Theorem C01_remainder_is_suffix :
@@ -58,6 +58,55 @@ Theorem C01_bitfield_declarations_total :
     runtime_safe (rust_decode (S fuel) oc fl sch id bs).
 Proof. exact rust_decode_bits_safe. Qed.
 Print Assumptions C01_bitfield_declarations_total.
+
+(** ARRAYS (Proofs/DecodeSafeArrays.v).  [arrays_fileb oc fl sch] is a decidable predicate
+    on the file: every declaration may use everything the previous theorem allows PLUS
+    arrays of scalar, enum and struct elements of static or unknown width, with a static
+    count, a `_size_` field, a `_count_` field or no delimiter, with and without padding --
+    provided that for a `_count_` field the largest value its backing integer can carry,
+    times the element width, stays below 2^64 (or, in the release profile, the elements are
+    decoded through T::decode).  For every such file, every input, fuel and the given
+    overflow mode the emitted decoder never panics at run time.  Excluded: arrays under an
+    `_elementsize_` field (F02: the value 0 reaches chunks(0) / `% 0`), count fields whose
+    product with the element width can pass 2^64 (F03), arrays of zero-width elements.
+    The element reads inside the loops are NOT individually guarded by the emitted code;
+    the proof carries "remaining length >= remaining count x element width" through the
+    loop, which is why the product bound is needed. *)
+Theorem C01_no_runtime_panic_with_arrays_partial :
+  forall (fuel : nat) (oc : bool) (fl : file) (sch : schema) (id : string) (bs : list byte),
+    arrays_fileb oc fl sch = true ->
+    no_rt_panic (rust_decode fuel oc fl sch id bs).
+Proof. intros. apply rust_decode_arrays_nrp. apply arrays_fileb_sound. assumption. Qed.
+Print Assumptions C01_no_runtime_panic_with_arrays_partial.
+
+(** the class of the previous theorem is included *)
+Theorem C01_simple_files_are_array_safe_files :
+  forall (oc : bool) (fl : file) (sch : schema), simple_file fl sch -> arrays_file oc fl sch.
+Proof. exact simple_file_arrays. Qed.
+Print Assumptions C01_simple_files_are_array_safe_files.
+
+(** the excluded class is excluded for a reason -- listed finding F03 as a theorem about the
+    model: `packet P { _count_(a):64, a:64[] }` on 00 00 00 00 00 00 00 20 panics with an
+    arithmetic overflow under overflow checks and runs off the buffer without them *)
+Theorem C01_count_times_width_refuted :
+  match mk_schema wit_count with
+  | Some sch =>
+      arrays_fileb true wit_count sch = false /\ arrays_fileb false wit_count sch = false /\
+      rust_decode 10 true wit_count sch "P" [x00; x00; x00; x00; x00; x00; x00; x20] = Outcome.Panic Outcome.ArithOverflow /\
+      rust_decode 10 false wit_count sch "P" [x00; x00; x00; x00; x00; x00; x00; x20] = Outcome.Panic Outcome.BufUnderflow
+  | None => False
+  end.
+Proof. exact count_times_width_refuted. Qed.
+Print Assumptions C01_count_times_width_refuted.
+
+(** non-vacuity of the array theorem: a file with a static-count array, size- and
+    count-delimited arrays, struct and enum elements and a padded array satisfies it *)
+Example C01_array_hypothesis_is_satisfiable :
+  match mk_schema ex_file with
+  | Some sch => arrays_file true ex_file sch /\ arrays_file false ex_file sch
+  | None => False
+  end.
+Proof. exact arrays_hypothesis_is_satisfiable. Qed.
 
 (** non-vacuity: a file with optional fields, a struct field, a sized payload and a
     child satisfies the hypothesis (decided by computation) *)
